@@ -94,9 +94,26 @@ func c03Msg(s *EnumSpec, v []int) *WMsg {
 func c03Eval(v []int) (string, string, bool) {
 	s := c03Spec
 	cfg := c03Cfg(s, v)
-	m := c03Msg(s, v)
 	w := StartRelayWorld(SimOpts{}, cfg)
 	defer w.Close()
+	return c03EvalIn(w, cfg, v, 0)
+}
+
+// c03EvalIn sends the case into the given world (fresh or aged) and judges what the network saw.
+func c03EvalIn(w *RelayWorld, cfg RCfg, v []int, seq int) (string, string, bool) {
+	s := c03Spec
+	m := c03Msg(s, v)
+	if seq > 0 {
+		// an aged world: keep transactions apart
+		for i := range m.Hdrs {
+			switch m.Hdrs[i].Name {
+			case "Call-ID":
+				m.Hdrs[i].Value = fmt.Sprintf("c03-%d", seq)
+			case "Via":
+				m.Hdrs[i].Value = strings.Replace(m.Hdrs[i].Value, "z9hG4bKc03", fmt.Sprintf("z9hG4bKc03x%d", seq), 1)
+			}
+		}
+	}
 	if s.Val(v, "prelude") == "hop-learned" {
 		// the next hop earlier sent a request of its own through the listener (history)
 		pm := MsgSpec{Method: "OPTIONS", RURI: "sip:x@foreign.example.net", Vias: []string{"SIP/2.0/UDP 127.0.2.1:5060;branch=z9hG4bKpre"},
@@ -192,6 +209,31 @@ func c03Eval(v []int) (string, string, bool) {
 	}
 }
 
+type c03Aged struct {
+	w   *RelayWorld
+	cfg RCfg
+	n   int
+}
+
+func c03AgedSpec() *AgedSpec {
+	s := c03Spec
+	return &AgedSpec{Spec: s,
+		Group: func(v []int) string {
+			if v[s.idx("prelude")] != 0 {
+				return ""
+			}
+			return fmt.Sprintf("names=%s,table=%s,backends=%s,keep=%s", s.Val(v, "names"), s.Val(v, "table"), s.Val(v, "backends"), s.Val(v, "keep"))
+		},
+		Open:  func(v []int) any { cfg := c03Cfg(s, v); return &c03Aged{w: StartRelayWorld(SimOpts{}, cfg), cfg: cfg} },
+		Close: func(w any) { w.(*c03Aged).w.Close() },
+		Eval: func(w any, v []int) (string, string) {
+			a := w.(*c03Aged)
+			a.n++
+			cl, d, _ := c03EvalIn(a.w, a.cfg, v, a.n)
+			return cl, d
+		}}
+}
+
 func init() {
 	c03Spec = &EnumSpec{
 		Feats: []Feat{
@@ -202,7 +244,7 @@ func init() {
 			{Name: "hoplr", Vals: []string{"lr", "none"}},
 			{Name: "tohost", Vals: []string{"nomatch", "exact", "wildcard"}},
 			{Name: "table", Vals: []string{"no-default", "default-udp", "default-tls", "empty"}, Quick: 2},
-			{Name: "ruri", Vals: []string{"foreign", "service-host", "regex-only", "user-at-host", "wrong-user", "urn", "tel", "listener", "listener-wrong-port", "substring-user", "listener-noport", "service-host-nouser"}, Quick: 9},
+			{Name: "ruri", Vals: []string{"foreign", "service-host", "regex-only", "user-at-host", "wrong-user", "urn", "tel", "listener", "listener-noport", "listener-wrong-port", "substring-user", "service-host-nouser"}, Quick: 9},
 			{Name: "keep", Vals: []string{"off", "true", "Yes", "0"}, Quick: 2},
 			{Name: "arrival", Vals: []string{"udp", "tcp"}},
 			{Name: "names", Vals: []string{"list", "single", "anything"}, Quick: 2},
@@ -243,9 +285,17 @@ func init() {
 		return true
 	}
 	addCheck(&Check{ID: "C03", Level: "exploration",
-		Rule:   "complete product of the decision-table features (Route shape x next-hop URI host/port/transport/lr x To host x static table x Request-URI class x keep-next-hop x arrival transport x service-name list x backends x history prelude {none, next hop learned, the same request received earlier through the other listener}), each case on a fresh world started through the real startProxy; the oracle inspects the set of ALL packets and connection attempts the simulated network saw until quiescence; non-trivial = the request is not simply dropped",
+		Rule:   "complete product of the decision-table features (Route shape x next-hop URI host/port/transport/lr x To host x static table x Request-URI class x keep-next-hop x arrival transport x service-name list x backends x history prelude {none, next hop learned, the same request received earlier through the other listener}), each case on a fresh world started through the real startProxy, and a second pass in which all cases of one configuration are fed one after the other into ONE long-lived world (history independence of the decision); the oracle inspects the set of ALL packets and connection attempts the simulated network saw until quiescence; non-trivial = the request is not simply dropped",
 		Assume: []string{"service-name patterns are matched with Go's regexp in both the code and the reference (trusted)", "hosts are IPv4 literals or host-table names (stated domain)"},
-		Run:    func(c *Ctx) { c03Spec.Run(c) },
-		Replay: func(c *Ctx, raw json.RawMessage) string { return c03Spec.Replay(raw) },
+		Run: func(c *Ctx) {
+			c03Spec.Run(c)
+			c03AgedSpec().Run(c)
+		},
+		Replay: func(c *Ctx, raw json.RawMessage) string {
+			if cl, ok := c03AgedSpec().Replay(raw); ok {
+				return cl
+			}
+			return c03Spec.Replay(raw)
+		},
 	})
 }
